@@ -1,0 +1,35 @@
+//go:build verif
+
+package survey
+
+// Cluster surveys (property C09). The surveyor is an ordinary subscriber of the system query channel: every
+// message of a frame that a peer sends for that channel is handed to Send -> onRequest / onResponse on the gossip
+// goroutine, which has no recover above it. Channel text and payload are whatever the peer put there: safety for
+// ANY message. strings.Split is assumed to be what its documentation says about the NUMBER of parts (at least
+// one; exactly one when the separator does not occur - which a hostile peer can arrange); the handlers, the gossip
+// transport and message.New are recorded calls.
+
+import (
+	"github.com/emitter-io/emitter/internal/message"
+	vs "github.com/emitter-io/emitter/internal/verifspec"
+)
+
+//@ assume strings.Split iface post=post_strings_Split
+func post_strings_Split(res0 []string) bool { return len(res0) >= 1 }
+
+//@ assume (Surveyee).OnSurvey iface
+//@ assume (gossiper).SendTo iface
+//@ assume (gossiper).ID iface
+//@ assume github.com/emitter-io/emitter/internal/message.New iface
+
+//@ verify (*Surveyor).onRequest pre=pre_Surveyor props=C09
+//@ loop (*Surveyor).onRequest 0 unroll 2 bounded
+func pre_Surveyor(c *Surveyor) bool { // (registered handlers are non-nil: HandleFunc is only called with services)
+	return c != nil && c.gossip != nil && vs.Forall(0, len(c.handlers), func(j int) bool { return c.handlers[j] != nil })
+}
+
+//@ assume (github.com/emitter-io/emitter/internal/message.ID).Ssid iface
+//@ assume (*Surveyor).onRequest iface for=Send
+//@ assume (*Surveyor).onResponse iface for=Send
+//@ verify (*Surveyor).Send pre=pre_Surveyor_Send props=C09
+func pre_Surveyor_Send(c *Surveyor, m *message.Message) bool { return pre_Surveyor(c) && m != nil }
